@@ -35,7 +35,7 @@ type loopScenario struct {
 func (sc loopScenario) line() string {
 	var ps []string
 	for _, p := range sc.peers {
-		ps = append(ps, fmt.Sprintf("%s:%d:%d", p.ID, p.Kind, p.DelayMs))
+		ps = append(ps, fmt.Sprintf("%s:%d:%d:%d", p.ID, p.Kind, p.DelayMs, p.Throughput))
 	}
 	t := 0
 	if sc.trace {
@@ -54,10 +54,14 @@ func parseLoopScenario(l string) (loopScenario, error) {
 	sc.seed, _ = strconv.ParseUint(f[2], 10, 64)
 	for _, p := range strings.Split(f[11], ",") {
 		q := strings.Split(p, ":")
-		if len(q) != 3 {
+		if len(q) != 3 && len(q) != 4 {
 			return sc, fmt.Errorf("bad peer %q", p)
 		}
-		sc.peers = append(sc.peers, downloader.VerifLoopPeer{ID: q[0], Kind: iv(q[1]), DelayMs: iv(q[2])})
+		lp := downloader.VerifLoopPeer{ID: q[0], Kind: iv(q[1]), DelayMs: iv(q[2])}
+		if len(q) == 4 {
+			lp.Throughput = iv(q[3])
+		}
+		sc.peers = append(sc.peers, lp)
 	}
 	return sc, nil
 }
@@ -93,7 +97,7 @@ func runLoopScenario(sc loopScenario, drvPath string) (string, string, *download
 	if !res.Completed {
 		var asked []string
 		for _, p := range sc.peers {
-			if p.Kind != downloader.VerifPeerHonest {
+			if p.Kind != downloader.VerifPeerHonest && p.ID != "" {
 				asked = append(asked, fmt.Sprintf("peer %s (kind %d) was given %d blocks", p.ID, p.Kind, res.Asked[p.ID]))
 			}
 		}
@@ -144,6 +148,9 @@ func quickLoopScenarios() []loopScenario {
 		{name: "liar-slow-partial-empty", seed: 6, n: 40, origin: 3, emptyPct: 10, cacheLen: 64, peers: pp(H, L, W, P, E), rttMs: 25, trace: true},
 		{name: "throttled-window", seed: 7, n: 40, origin: 50, emptyPct: 30, cacheLen: 8, peers: pp(H, S, H), rttMs: 25, importEvery: 1, trace: true},
 		{name: "late-finish-signal", seed: 8, n: 12, origin: 9, cacheLen: 64, peers: pp(H, S), rttMs: 25, finishedAt: 200, trace: true},
+		// the ONLY peer lets its first request of > 2 bodies expire (setIdle(peer, 0), not dropped) and answers everything else
+		{name: "only-peer-stalls-first-big-request", seed: 10, n: 60, origin: 1, cacheLen: 128, peers: []downloader.VerifLoopPeer{{ID: "1", Kind: downloader.VerifPeerStallFirst, Throughput: 500}}, rttMs: 25, importEvery: 1, trace: true},
+		{name: "only-peer-stalls-first-big-request-fetchBodies", seed: 11, n: 40, origin: 5, cacheLen: 128, peers: []downloader.VerifLoopPeer{{ID: "1", Kind: downloader.VerifPeerStallFirst, Throughput: 800}}, rttMs: 25, importEvery: 1, trace: false},
 		{name: "all-honest", seed: 9, n: 30, origin: 1, emptyPct: 50, cacheLen: 64, peers: pp(H, H, H), rttMs: 25, trace: true},
 	}
 }
@@ -160,7 +167,21 @@ func randomLoopScenario(r *vh.RNG, i int) loopScenario {
 		sc.finishedAt = r.Range(50, 300)
 	}
 	sc.peers = []downloader.VerifLoopPeer{{ID: "1", Kind: downloader.VerifPeerHonest}}
-	for k := 0; k < r.Range(1, 4); k++ {
+	extra := r.Range(1, 4)
+	if r.Chance(15) { // the master is honest except for its first (big) request
+		sc.peers[0] = downloader.VerifLoopPeer{ID: "1", Kind: downloader.VerifPeerStallFirst, Throughput: r.Range(200, 2000)}
+		// its first request must have > 2 bodies (otherwise the loop rightly drops the master and aborts)
+		sc.emptyPct = 0
+		if sc.n < 30 {
+			sc.n = r.Range(30, 80)
+		}
+		if sc.cacheLen < 16 {
+			sc.cacheLen = 16
+		}
+		sc.importEvery = 1
+		extra = 0 // alone: with competitors its first request may be small, and a master timing out on <= 2 items is dropped by design
+	}
+	for k := 0; k < extra; k++ {
 		kind := r.Intn(7)
 		d := 0
 		if kind == downloader.VerifPeerSlow {
